@@ -1,0 +1,51 @@
+//go:build verif
+
+package engine
+
+//@ ---------------------------------------------------------------- the list iterator every list-consuming built-in walks with (C16, C08, C11, C02)
+//@ -- A step contract in the style of seqIterator/altIterator: the list is read cell by cell under the bindings of the
+//@ -- iterator's environment; an element is the head of a './2' cell, the walk goes on with the RESOLVED tail; it ends
+//@ -- without an error only at [] (or at an unbound tail when partial lists are allowed); everything else is an error
+//@ -- of the ISO kind. `h` is the cell the iterator stands on: the resolved list on the first step, the kept tail later.
+
+//@ spec fun isCons(t Term) bool = t is Compound && Compound.Functor(t as Compound) == atomDot && Compound.Arity(t as Compound) == 2
+//@ spec fun cycleSeen(i *ListIterator, h Term) bool = id(i.tortoise) == id(h) && !i.AllowCycle
+
+//@ func (*ListIterator).Next
+//@   property C16 C08 C11
+//@   requires i != nil
+//@   modifies *i
+//@   let h = ite(i.hare == nil, resolve(i.Env, i.List), i.hare)
+//@   let cyc = cycleSeen(i, ite(i.hare == nil, resolve(i.Env, i.List), i.hare))
+//@   bind ie = InstantiationError#1
+//@   at-call (*Env).Resolve requires[the-list-is-read-under-the-iterator-s-bindings] a0 == i.Env
+//@   at-call InstantiationError requires[only-an-unbound-tail-is-an-instantiation-error] h is Variable && !i.AllowPartial
+//@   at-call typeError requires[everything-else-that-is-not-a-list-is-a-type-error-list-of-the-whole-list] a0 == validTypeList && a1 == i.List && a2 == i.Env
+//@   ensures[the-list-is-read-in-the-same-environment-and-mode-throughout] i.Env == old(i.Env) && i.List == old(i.List) && i.AllowPartial == old(i.AllowPartial) && i.AllowCycle == old(i.AllowCycle)
+//@   ensures[an-element-is-the-head-of-a-list-cell-and-the-walk-goes-on-with-the-resolved-tail] result ==> isCons(h) && i.current == Compound.Arg(h as Compound, 0) &&
+//@       i.hare == resolve(i.Env, Compound.Arg(h as Compound, 1)) && i.err == old(i.err)
+//@   ensures[every-list-cell-yields-its-element] isCons(h) && !cyc ==> result
+//@   ensures[the-empty-list-ends-the-walk-without-an-error] h is Atom && (h as Atom) == atomEmptyList && !cyc ==> !result && i.err == old(i.err)
+//@   ensures[an-unbound-tail-ends-the-walk-without-an-error-where-partial-lists-are-allowed] h is Variable && i.AllowPartial && !cyc ==> !result && i.err == old(i.err)
+//@   ensures[an-unbound-tail-is-an-instantiation-error-otherwise] h is Variable && !i.AllowPartial && !cyc ==> !result && called(ie) && i.err == ie
+//@   ensures[anything-else-is-a-type-error] !(h is Variable) && !(h is Atom && (h as Atom) == atomEmptyList) && !isCons(h) ==> !result && isTypeErr(i.err, validTypeList, i.List)
+//@   ensures[a-cycle-is-a-type-error-unless-allowed] cyc ==> !result && isTypeErr(i.err, validTypeList, i.List)
+//@   ensures[the-element-and-the-position-stay-when-the-walk-ends] !result ==> i.current == old(i.current) && i.hare == h
+
+//@ func (*ListIterator).Current
+//@   property C16 C08 C11
+//@   requires i != nil
+//@   modifies nothing
+//@   ensures[the-element-the-iterator-stands-on] result == i.current
+
+//@ func (*ListIterator).Err
+//@   property C16 C08 C11
+//@   requires i != nil
+//@   modifies nothing
+//@   ensures[the-error-the-walk-ended-with] result == i.err
+
+//@ func (*ListIterator).Suffix
+//@   property C16
+//@   requires i != nil
+//@   modifies nothing
+//@   ensures[what-is-left-of-the-list] result == ite(i.hare == nil, i.List, i.hare)
